@@ -350,6 +350,9 @@ BUILTINS = [
     ('S: A+; A: "a" "b";', lambda k: ("ab" * k, [["a", "b"]] * k), 1),
     ('S: x=A* y="c";\nA: "a";', lambda k: ("a" * k + "c", ("obj", "S", (("x", ["a"] * k), ("y", "c")))), 0),
     ('S: "a"*! "b";', lambda k: ("a" * k + "b", [["a"] * k, "b"]), 0),
+    ('S: "a"+! "b";', lambda k: ("a" * k + "b", [["a"] * k, "b"]), 1),
+    ('S: A+! "c";\nA: "a" "b";', lambda k: ("ab" * k + "c", [[["a", "b"]] * k, "c"]), 1),
+    ('S: "b" "a"+! "b" "a"+;', lambda k: ("b" + "a" * k + "b" + "a" * k, ["b", ["a"] * k, "b", ["a"] * k]), 1),
     ('S: ("a" "b")+ "c";', lambda k: ("ab" * k + "c", [[["a", "b"]] * k, "c"]), 1),
     ('S: x?="a"? "b";', lambda k: ("ab" if k % 2 else "b", ("obj", "S", (("x", bool(k % 2)),))), 0),
     # built-in actions referenced from the grammar with @name
